@@ -191,6 +191,17 @@ def evaluate(c, rec):
                     # the first certificate occurs once more at the end (keyring dumps and merged exports contain such repeats):
                     # every certificate still gets its own components and nobody else's
                     blobs.append(blobs[0])
+                foreign = c['layout'] % 3 == 1
+                if foreign:
+                    # a certificate of a key version that is not implemented (v3 of old keyrings, v5/v6 of later specifications) between
+                    # the others: skipping or refusing it is fine, handing its identities and subkeys to the preceding key is not
+                    ver = (3, 5, 6)[(c['layout'] // 3) % 3]
+                    first_sig = [p for p in wire.split_packets(blobs[0]) if p.tag == 2][0]
+                    body = bytes([ver]) + (b'\x4e\x00\x00\x00\x00\x00\x01' + wire.mpi_encode((1 << 1023) | 12345) + wire.mpi_encode(65537) if ver == 3
+                                           else b'\x5e\x00\x00\x00\x16\x00\x00\x00\x20' + bytes(range(32)))
+                    blobs.insert(1, wire.build_packet(5 if c['secret'] and ver != 3 else 6, body) + wire.build_packet(13, b'Foreign Version <fv@example.org>') + first_sig.raw
+                                 + wire.build_packet(14, keypool.ref_public('cv25519-0').body))
+                    rec.note('concatenation-with-foreign-version-certificate/v%d' % ver)
                 if c['layout'] & 8:
                     # marker packets ("MUST be ignored when received", RFC 4880 5.8) before and between the certificates
                     blobs = [x for b in blobs for x in (wire.build_packet(10, b'PGP'), b)]
@@ -203,7 +214,13 @@ def evaluate(c, rec):
                     rec.note('concatenation-of-armored-blocks')
                 elif c['armored']:
                     data = armor.write_block(magic, data)
-                first, rest = pgpy.PGPKey.from_blob(data)
+                try:
+                    first, rest = pgpy.PGPKey.from_blob(data)
+                except Exception:   # noqa
+                    if not foreign:
+                        raise
+                    rec.note('concatenation-with-foreign-version-certificate/import-refused')
+                    return
                 keys = [first] + [k for k in rest.values() if k is not first]
                 rec.note('concatenation-with-repeat' if repeat else 'concatenation')
                 if (sorted(set(str(k.fingerprint) for k in keys)) if repeat else sorted(str(k.fingerprint) for k in keys)) != sorted(m.fpr for m in models):
